@@ -7,6 +7,7 @@ package main
 import (
 	"fmt"
 	"regexp"
+	"slices"
 	"sort"
 	"strings"
 )
@@ -57,7 +58,13 @@ func (c *shippedCase) files() map[string]string {
 		}
 		b.WriteString("\n")
 		for _, t := range ts {
-			fmt.Fprintf(&b, "// %s of package a%d.\n", t.Name, i)
+			if (i+len(t.Name)+len(ts))%3 == 0 {
+				// a doc line that still opens with the name once the name has been taken off (`Status Status of the order`, as
+				// generators of API types write them)
+				fmt.Fprintf(&b, "// %s %s of package a%d.\n", t.Name, t.Name, i)
+			} else {
+				fmt.Fprintf(&b, "// %s of package a%d.\n", t.Name, i)
+			}
 			if t.Tagged {
 				b.WriteString("// +gengo:deepcopy\n// +gengo:runtimedoc\n")
 			}
@@ -67,7 +74,11 @@ func (c *shippedCase) files() map[string]string {
 			}
 			fmt.Fprintf(&b, "type %s struct {\n", t.Name)
 			for _, f := range t.Fields {
-				fmt.Fprintf(&b, "\t// %s documented\n\t%s %s\n", f.Name, f.Name, c.goType(i, f.Ty))
+				if (i+len(f.Name)+len(t.Fields))%2 == 0 {
+					fmt.Fprintf(&b, "\t// %s %s documented\n\t%s %s\n", f.Name, f.Name, f.Name, c.goType(i, f.Ty))
+				} else {
+					fmt.Fprintf(&b, "\t// %s documented\n\t%s %s\n", f.Name, f.Name, c.goType(i, f.Ty))
+				}
 			}
 			b.WriteString("}\n\n")
 		}
@@ -434,6 +445,29 @@ func (c *rerunCase) eval() {
 					c.out += " — " + rerunForeignClass
 				}
 				return
+			}
+		}
+	}
+	if len(c.Gens) > 1 {
+		// the same generators handed over in the opposite order, on fresh sources: the first run writes the same files
+		rev := c.job(nil)
+		rev.Entry, rev.Runs, rev.Base, rev.All = job.Entry, 1, c.Base, c.All
+		rev.Gens = append([]string{}, c.Gens...)
+		slices.Reverse(rev.Gens)
+		o2 := runGenJob(rev)
+		if o2.Harness == "" && len(o2.ExecErr) == 1 && o2.ExecErr[0] == "" {
+			names := map[string]bool{}
+			for rel := range out.Generated[0] {
+				names[rel] = true
+			}
+			for rel := range o2.Generated[0] {
+				names[rel] = true
+			}
+			for _, rel := range sortedKeys(names) {
+				if a, b := out.Generated[0][rel], o2.Generated[0][rel]; a != b {
+					c.out = fmt.Sprintf("DIFF %s differs between a run that was handed the generators %v and one that was handed them in the opposite order (the same sources, output file base name %q):\n--- %v\n%s\n--- reversed\n%s", rel, c.Gens, c.Base, c.Gens, a, b)
+					return
+				}
 			}
 		}
 	}
